@@ -34,6 +34,7 @@ def thread_strategy(roles):
             lambda r: st.tuples(st.just(r), threadprog.program_strategy(r)).map(list)), min_size=2, max_size=4),
         'schedule': threadprog.SCHEDULE,
         'lines': st.booleans(),
+        'warm': st.booleans(),
         # a packer thread among them (file and mapping storages): None or how far back the pack time lies
         'packer': st.sampled_from([None, None, None, 0.0, 0.02, 1.0]),
     })
@@ -61,7 +62,7 @@ def run_threads(case, prop, oracles):
     clock.install()
     clock.reset()
     d = newdir()
-    tr = threadprog.ThreadRun(case['kind'], d, prehistory=2 if case.get('packer') is not None else 0)
+    tr = threadprog.ThreadRun(case['kind'], d, prehistory=2 if case.get('packer') is not None else 0, warm=case.get('warm', True))
     try:
         threads = []
         for i, (role, prog) in enumerate(case['programs']):
@@ -78,7 +79,7 @@ def run_threads(case, prop, oracles):
             out.label('preempted-inside-finish-or-poll')
         from ZODB.POSException import ConflictError
         if not threadprog.thread_problems(s, out, prop, allowed=(ConflictError,)):
-            for o in oracles:
+            for o in list(oracles) + [threadprog.final_reads_oracle]:
                 if not out.failures:
                     o(tr, out, prop)
         out.nontrivial = s.switches > 0 and any(k == 'commit-ok' and d_[0] for _, _, k, d_ in tr.events)
@@ -95,10 +96,25 @@ def strategy(tier, weights='mixed'):
 
 
 def _seq_strategy(n, weights):
+    def ops(nc):
+        free = st.lists(mvccprog.op_strategy(nc, weights), min_size=10, max_size=n)
+        if weights != 'write-heavy':
+            return free
+        # the shape C03 is about: two transactions that overlap on an object; the loser has already handed
+        # other records to the storage when the conflict is found; then the world goes on
+        op = mvccprog.op_strategy(nc, weights)
+        x, y = st.sampled_from(mvccprog.PLAIN + mvccprog.COUNTERS), st.sampled_from(mvccprog.PLAIN + mvccprog.COUNTERS)
+
+        def w(c, nme, k):
+            return ['inc', c, nme, k] if nme in mvccprog.COUNTERS else ['write', c, nme]
+        phased = st.tuples(st.lists(op, max_size=4), x, y, st.integers(1, 3), st.booleans(), st.lists(op, min_size=2, max_size=10)).map(
+            lambda t: t[0] + [['begin', 0], ['begin', 1], w(0, t[1], t[3])] + ([w(1, t[2], t[3])] if t[4] else [])
+            + [w(1, t[1], t[3]), ['commit', 0], ['commit', 1]] + t[5])
+        return st.one_of(free, phased)
     return st.integers(2, 3).flatmap(lambda nc: st.fixed_dictionaries({
         'kind': st.sampled_from(['fs', 'fs', 'mapping', 'demo', 'demo-fs']),
         'nconn': st.just(nc), 'pool': st.sampled_from([1, 2, 7]),
-        'ops': st.lists(mvccprog.op_strategy(nc, weights), min_size=10, max_size=n)}))
+        'ops': ops(nc)}))
 
 
 def run(case, prop):
